@@ -110,6 +110,9 @@ def mechanism(draw, closed_loops=True, point_masses=True, conservative=False, ma
         if "axis" in m:
             m["b1"], m["b2"] = 0.5 * m["b1"], 0.5 * m["b2"]
         spec["base_motion"] = m
+    if kind == "chain" and not conservative and draw(st.integers(0, 2)) == 0:
+        # initial orientations given as non-unit quaternions (the bodies accept them; assembly normalises them)
+        spec["p_scale"] = draw(st.sampled_from([0.8, 1.25]))
     if kind == "chain" and not conservative and nb >= 2 and draw(st.integers(0, 2)) == 0:
         # a sphere-sphere contact element between the first two bodies with radii so small that it never closes: it takes
         # part in every step (step_callback, active-set logic) without changing the motion
@@ -175,6 +178,9 @@ def build_mechanism(spec, t0=0.0, state=None, consistent=True, opts=None):
                 b["omega"] = (np.array(b["omega"]) + gen.quat_to_R(np.array(b["P"], dtype=float)).T @ om).tolist()
             prev = build.make_frame(spec["base_motion"], name="base")
             system.add(prev)
+        if spec.get("p_scale") and state is None:
+            for b in bs:
+                b["P"] = (spec["p_scale"] * np.array(b["P"], dtype=float)).tolist()
         bodies = [build.make_body(b, name=f"body{i}") for i, b in enumerate(bs)]
         system.add(*bodies)
         for i, js in enumerate(spec["joints"]):
